@@ -121,7 +121,10 @@ pub fn run_batch(cfg: &BatchCfg, spec: &PropSpec) -> i32 {
                     break;
                 }
                 let sseed = scenario_seed(seed, spec.id, k as u64);
-                let sc = (spec.gen)(sseed, thorough);
+                let sc = match spec.enumerated.and_then(|(_, case)| case(k)) {
+                    Some(sc) => sc,
+                    None => (spec.gen)(sseed, thorough),
+                };
                 let rep = crate::runner::run_scenario(&sc);
                 // Determinism self-check: every 50th scenario is executed twice.
                 let twin = if k % 50 == 0 { Some(crate::runner::run_scenario(&sc).log_hash) } else { None };
@@ -243,6 +246,7 @@ pub fn run_batch(cfg: &BatchCfg, spec: &PropSpec) -> i32 {
             "rule": format!("{} A run is NON-TRIVIAL for this property when: {}. DISTINCT = distinct interleaving signatures (hash over the per-node sequence of commit events and of decoded consensus/mempool message deliveries (node, kind, round)) among the non-trivial runs.", spec.gen_rule, spec.nontrivial_rule),
             "samples": samples,
             "exhaustive": false,
+            "enumerated_subspace": spec.enumerated.map(|(count, _)| json!({"cases": count(), "completed": first_violation.is_none() && evaluations as usize >= count(), "note": "the enumerated sub-space is finite and was covered completely when 'completed' is true; the remaining evaluations are seeded exploration"})),
             "distinct_signatures_all_runs": all_sigs.len(),
             "runs_per_hour": runs_per_hour,
             "simulated_seconds": virt_us as f64 / 1e6,
